@@ -632,7 +632,7 @@ Qed.
 
 (* ---------------- the regenerated header ---------------- *)
 (* first sample of the box a whole number of milliseconds: the header stores the start time as an integer *)
-Definition good_z (A : axes) (z0 : Z) : bool := (z0 * ax_dt_us A) mod 1000 =? 0.
+Definition good_z (A : axes) (z0 : Z) : bool := (ax_z0_sub_us A + z0 * ax_dt_us A) mod 1000 =? 0.
 
 Theorem crop_header_thm H A il xl zs R : wf3 H = true -> crop_by_indexes H A il xl zs = Return R ->
   let H' := out_hdr H (co_fields R) in let A' := out_axes A (co_fields R) in
@@ -682,10 +682,12 @@ Proof.
   { intro k. unfold crp_xlines_at at 1. change (ax_xl0 (out_axes A _)) with (crp_xlines_at A x0).
     change (ax_xl_step (out_axes A _)) with (ax_xl_step A). unfold crp_xlines_at. ring. }
   intros G k. unfold good_z in G. apply Z.eqb_eq in G.
-  unfold z_us. change (ax_dt_us (out_axes A _)) with (ax_dt_us A).
+  unfold z_us, z_start_us. change (ax_dt_us (out_axes A _)) with (ax_dt_us A).
+  change (ax_z0_sub_us (out_axes A _)) with 0.
   change (ax_z0_ms (out_axes A _)) with (crp_zslices_at_int32 A z0). unfold crp_zslices_at_int32.
-  assert (M : (1000 * ax_z0_ms A + z0 * ax_dt_us A) mod 1000 = 0).
-  { replace (1000 * ax_z0_ms A + z0 * ax_dt_us A) with (z0 * ax_dt_us A + ax_z0_ms A * 1000) by ring.
+  assert (M : (1000 * ax_z0_ms A + ax_z0_sub_us A + z0 * ax_dt_us A) mod 1000 = 0).
+  { replace (1000 * ax_z0_ms A + ax_z0_sub_us A + z0 * ax_dt_us A)
+      with (ax_z0_sub_us A + z0 * ax_dt_us A + ax_z0_ms A * 1000) by ring.
     rewrite Z_mod_plus_full. exact G. }
   rewrite (exact_div _ 1000 ltac:(lia) M) at 1.
   rewrite (Z.mul_comm 1000 (_ / 1000)), Z.quot_mul by lia.
@@ -695,10 +697,11 @@ Qed.
 (* the integer start time is a real limitation: a 333 us file cropped at sample 128 gets a z axis that is not the
    sub-range of the source's *)
 Theorem crop_z_axis_refuted : exists A z0 k, good_z A z0 = false /\
-  z_us {| ax_z0_ms := crp_zslices_at_int32 A z0; ax_dt_us := ax_dt_us A; ax_xl0 := 0; ax_xl_step := 1; ax_il0 := 0; ax_il_step := 1 |} k
+  z_us {| ax_z0_ms := crp_zslices_at_int32 A z0; ax_dt_us := ax_dt_us A; ax_xl0 := 0; ax_xl_step := 1; ax_il0 := 0; ax_il_step := 1;
+          ax_z0_sub_us := 0 |} k
   <> z_us A (k + z0).
 Proof.
-  exists {| ax_z0_ms := 0; ax_dt_us := 333; ax_xl0 := 0; ax_xl_step := 1; ax_il0 := 0; ax_il_step := 1 |}, 128, 0.
+  exists {| ax_z0_ms := 0; ax_dt_us := 333; ax_xl0 := 0; ax_xl_step := 1; ax_il0 := 0; ax_il_step := 1; ax_z0_sub_us := 0 |}, 128, 0.
   split; [reflexivity | vm_compute; discriminate].
 Qed.
 
@@ -796,12 +799,12 @@ Qed.
 Theorem crop_coords_thm H A ilc xlc zc R : crop_by_coords H A ilc xlc zc = Return R ->
   exists il xl zs,
     on_axis (ax_il0 A) (ax_il_step A) (rd_n_ilines H) ilc il /\ on_axis (ax_xl0 A) (ax_xl_step A) (rd_n_xlines H) xlc xl /\
-    on_axis (1000 * ax_z0_ms A) (ax_dt_us A) (rd_n_samples H) zc zs /\ crop_by_indexes H A il xl zs = Return R.
+    on_axis (z_start_us A) (ax_dt_us A) (rd_n_samples H) zc zs /\ crop_by_indexes H A il xl zs = Return R.
 Proof.
   unfold crop_by_coords.
   destruct (coord_range (ax_il0 A) _ _ ilc) as [il|] eqn:Ei; [|discriminate]. cbn [bind].
   destruct (coord_range (ax_xl0 A) _ _ xlc) as [xl|] eqn:Ex; [|discriminate]. cbn [bind].
-  destruct (coord_range (1000 * ax_z0_ms A) _ _ zc) as [zs|] eqn:Ez; [|discriminate]. cbn [bind].
+  destruct (coord_range (z_start_us A) _ _ zc) as [zs|] eqn:Ez; [|discriminate]. cbn [bind].
   intro E. exists il, xl, zs. repeat split; try (apply coord_range_sound; assumption). exact E.
 Qed.
 
@@ -820,7 +823,7 @@ Theorem crop_coords_on_axis H A (il xl zs : option (Z * Z)) :
   let okr st n (r : option (Z * Z)) := match r with None => True | Some (a, b) => st <> 0 /\ 0 <= a < n /\ 0 <= b /\ (b < n \/ (b = n /\ 2 <= n)) end in
   okr (ax_il_step A) (rd_n_ilines H) il -> okr (ax_xl_step A) (rd_n_xlines H) xl -> okr (ax_dt_us A) (rd_n_samples H) zs ->
   crop_by_coords H A (conv (ax_il0 A) (ax_il_step A) (rd_n_ilines H) il) (conv (ax_xl0 A) (ax_xl_step A) (rd_n_xlines H) xl)
-                     (conv (1000 * ax_z0_ms A) (ax_dt_us A) (rd_n_samples H) zs) = crop_by_indexes H A il xl zs.
+                     (conv (z_start_us A) (ax_dt_us A) (rd_n_samples H) zs) = crop_by_indexes H A il xl zs.
 Proof.
   intros conv okr Oi Ox Oz.
   assert (K : forall s st n r, okr st n r -> coord_range s st n (conv s st n r) = Return r).
